@@ -269,7 +269,7 @@ func buildUniStats() []uniStat {
 			aff: func(a, b float64, out []float64) []float64 { return one(out[0]) },
 		},
 		{
-			name: "GeometricMean", outs: []string{""}, minN: 1, posX: true, maxExp: 465, scaleOnly: true,
+			name: "GeometricMean", outs: []string{""}, minN: 1, posX: true, maxExp: 1000, scaleOnly: true, // evaluated in log space
 			call: func(x, w []float64, _ float64) []float64 { return one(stat.GeometricMean(x, w)) },
 			ref: func(m *moments, _ float64) ([]bf, []float64, bool) {
 				s := bZero()
@@ -286,7 +286,7 @@ func buildUniStats() []uniStat {
 			aff: func(a, b float64, out []float64) []float64 { return one(a * out[0]) },
 		},
 		{
-			name: "HarmonicMean", outs: []string{""}, minN: 1, posX: true, maxExp: 465, scaleOnly: true,
+			name: "HarmonicMean", outs: []string{""}, minN: 1, posX: true, maxExp: 1000, scaleOnly: true, // evaluated in log space ("hm = exp(log(W) - log(sum w/x))")
 			call: func(x, w []float64, _ float64) []float64 { return one(stat.HarmonicMean(x, w)) },
 			ref: func(m *moments, _ float64) ([]bf, []float64, bool) {
 				s := bZero()
@@ -394,6 +394,13 @@ func (m *mon) runUni() {
 		if class == clsGrid {
 			e = 0
 		}
+		if (class == clsPosCont || class == clsPosTies) && r.Intn(3) == 0 {
+			// near the ends of the float64 range: only the log-space routines
+			// (geometric and harmonic mean) are judged there
+			e = r.PickInt(1000, -1000)
+		}
+		ew := weightExps[r.Intn(len(weightExps))] // weight scale class of this case
+		kw := r.PickInt(60, -60)                  // exact rescaling of the weights for the invariance relation
 		x := scaleBy(x0, e)
 		n := len(x)
 		sc := scaleClass(e)
@@ -403,7 +410,12 @@ func (m *mon) runUni() {
 		perm := r.Perm(n)
 		for _, wk := range uniWeightKinds {
 			w := genWeights(r, wk, n)
-			c.LastCase(fmt.Sprintf("univariate stats n=%d class=%s wk=%s case=%d (stream uni)", n, class, wk, ci))
+			ewk := 0
+			if scalableKind(wk) {
+				ewk = ew
+				w = scaleBy(w, ewk)
+			}
+			c.LastCase(fmt.Sprintf("univariate stats n=%d class=%s wk=%s ew=%d case=%d (stream uni)", n, class, wk, ewk, ci))
 			mo := newMoments(x, w)
 			var moRep *moments
 			var rx []float64
@@ -418,12 +430,19 @@ func (m *mon) runUni() {
 			}
 			for si := range uniStats {
 				S := &uniStats[si]
-				if n < S.minN || mo.Wf < S.minW || (zero && !S.zerosOK) || (S.posX && !pos) || (S.needVar && constant) || absInt(e) > S.maxExp {
+				if n < S.minN || mo.Wf < S.minW || (zero && !S.zerosOK) || (S.posX && !pos) || (S.needVar && constant) || !fits(ewk, e, S.maxExp) {
 					continue
 				}
 				sc := sc
 				if constant {
 					sc = "constant sample"
+				}
+				if ewk != 0 && e == 0 {
+					sc = "extreme-weights"
+				}
+				lim := 1e290
+				if S.maxExp >= 1000 {
+					lim = 1e305
 				}
 				replay := func() any {
 					return replayCase{"func": S.name, "x": x, "weights": w, "aux": aux, "data_class": class, "weight_kind": wk}
@@ -447,7 +466,7 @@ func (m *mon) runUni() {
 						rf := bTo(refs[k])
 						g = rf + math.Remainder(g-rf, 2*math.Pi)
 					}
-					if !m.band(S.name+dot(S.outs[k]), sc, "definition", g, refs[k], units[k], replay) {
+					if !m.bandLim(lim, S.name+dot(S.outs[k]), sc, "definition", g, refs[k], units[k], replay) {
 						okAll = false
 					}
 				}
@@ -464,6 +483,20 @@ func (m *mon) runUni() {
 						m.eval(ci, S.name+"|ones-vs-nil|"+class+"|"+sc)
 						for k := range out {
 							m.rel(S.name+dot(S.outs[k]), sc, "ones-weights != nil-weights", wrapTo(S, out[k], o2[k]), o2[k], 2*units[k], replay)
+						}
+					}
+				}
+				// (2e) rescaling all weights by an exact power of two changes no
+				// statistic that is normalised by the total weight
+				if w != nil && S.minW == 0 && fits(ewk+kw, e, S.maxExp) {
+					var o2 []float64
+					w2 := scaleBy(w, kw)
+					if m.try(S.name, sc, replay, func() { o2 = S.call(cp(x), w2, aux) }) {
+						m.eval(ci, S.name+"|weight-scale|"+wk+"|"+class+"|"+sc)
+						for k := range out {
+							m.rel(S.name+dot(S.outs[k]), sc, "changes when all weights are scaled by 2^k", wrapTo(S, out[k], o2[k]), o2[k], 2*units[k], func() any {
+								return replayCase{"func": S.name, "x": x, "weights": w, "k": kw, "data_class": class, "weight_kind": wk}
+							})
 						}
 					}
 				}
@@ -487,6 +520,17 @@ func (m *mon) runUni() {
 						m.eval(ci, S.name+"|permutation|"+wk+"|"+class+"|"+sc)
 						for k := range out {
 							m.rel(S.name+dot(S.outs[k]), sc, "permutation-dependent", wrapTo(S, out[k], o2[k]), o2[k], 2*units[k], replay)
+						}
+					}
+				}
+				// (2f) log-space routines: exact power-of-two scale equivariance
+				// between the end of the float64 range and the unscaled data
+				if S.scaleOnly && absInt(e) == 1000 {
+					var o0 []float64
+					if m.try(S.name, sc, replay, func() { o0 = S.call(cp(x0), cp(w), aux) }) {
+						m.eval(ci, S.name+"|extreme-scale-equivariance|"+wk+"|"+class)
+						for k := range out {
+							m.rel(S.name+dot(S.outs[k]), sc, "not scale-equivariant", out[k], math.Ldexp(o0[k], e), 4*units[k], replay)
 						}
 					}
 				}
